@@ -394,12 +394,26 @@ def run_prod(res, work, tier, seed):
                             ops.append({"ev": "drop_shared"})
                 ops += [{"ev": "feed", "m": "copy", "n": -1}, {"ev": "finish"}]
                 scripted.append((inp, ops))
+    # (c) an anchored piece that leaves no slice behind (a lone FE is held back by the encoder; header bytes alone give the
+    #     decoder nothing to emit) right after a large borrowed anchored piece whose chunk nothing else keeps alive
+    dec_scripts = {}
+    for m in ("foreign", "anchored", "shared", "ahead"):
+        inp = _filler(300, rng) + [FE] + _filler(300, rng)
+        ops = [{"ev": "feed", "m": m, "n": 300}, {"ev": "feed", "m": m, "n": 1}, {"ev": "drain", "mode": "read", "n": 10 ** 6},
+               {"ev": "feed", "m": m, "n": 300}, {"ev": "finish"}]
+        scripted.append((inp, ops))
+        inp = _filler(352, rng)        # encodes as [252] 252 bytes [100, 0] 100 bytes
+        dec_scripts[len(scripted)] = [{"ev": "feed", "m": m, "n": 253}, {"ev": "feed", "m": m, "n": 1}, {"ev": "feed", "m": m, "n": 1},
+                                      {"ev": "drain", "mode": "slices", "n": 10 ** 6}, {"ev": "feed", "m": m, "n": -1},
+                                      {"ev": "finish"}]
+        scripted.append((inp, [{"ev": "feed", "m": "copy", "n": -1}, {"ev": "finish"}]))
     for k, (inp, ops) in enumerate(scripted):
         rid += 1
+        dops = dec_scripts.get(k) or [{"ev": "feed", "m": rng.choice(METHODS + ["shared"]), "n": -1},
+                                      {"ev": "feed", "m": "copy", "n": -1}, {"ev": "finish"}]
         runs.append({"run": rid, "cfg": {"kind": "rt", "l1": L1P, "l2": L2P, "prod": True, "full": len(inp) <= 8000, "input": inp,
                                          "iid": 0, "noremix": True},
-                     "ops": ops + [{"ev": "feed", "m": rng.choice(METHODS + ["shared"]), "n": -1},
-                                   {"ev": "feed", "m": "copy", "n": -1}, {"ev": "finish"}]})
+                     "ops": ops + dops})
     n_rt = rid
     # decoder negative space: truncations and header corruptions of a valid encoding, garbage
     base = [3, 1, 2, 3, 2, 0, 9, 9]           # "1 2 3" FE FD "9 9": short first chunk, short second chunk
@@ -564,6 +578,11 @@ def run_footprint(res, work, tier, seed):
         rid += 1
         runs.append({"run": rid, "cfg": {"kind": "sreader", "shape": "nostuff", "total": 24 * mib, "sizes": [1], "big": 24 * mib,
                                          "log": log, "seed": 5}, "ops": []})
+    # the same logs through a hand-rolled reader (pump -> decode_anchored -> finish -> consume(n) -> new_from_iovec)
+    for log in ("empties", "junk", "mixed"):
+        rid += 1
+        runs.append({"run": rid, "cfg": {"kind": "chunkdec", "shape": "nostuff", "total": 24 * mib, "sizes": [rng.choice([3, 4096, 65536])],
+                                         "big": 24 * mib, "log": log, "seed": 5}, "ops": []})
     trace = core.drive("footprint", runs, work, "footprint", timeout=7000)
     tv = tlc.validate_trace("FootprintTrace", "FootprintTrace.cfg", trace, os.path.join(work, "tv"), timeout=3000)
     res.add_tv(tv, {r["run"]: r for r in runs}, "footprint", "long streams", crash_props=("C10",))
